@@ -646,7 +646,8 @@ class Encoder:
     def rec_payload(self, o):
         vals = [self.value(v) for _, v in o[3]]
         if self.extra:
-            vals = vals[:-1] + [None] * self.extra + vals[-1:]
+            # metadata of a later release: any values, not only None or numbers
+            vals = vals[:-1] + ["tlp:amber", [1, "x"], None][: self.extra] + [None] * max(0, self.extra - 3) + vals[-1:]
         if self.drop_version:
             vals = vals[:-1]
         return [self.ident(o), vals]
